@@ -81,3 +81,46 @@ Theorem C18_tag_nonzero : forall field wt, 1 <= field -> wt < 8 ->
   match encode_tag field wt with c :: _ => c <> 0 | [] => False end.
 Proof. exact tag_nonzero. Qed.
 Print Assumptions C18_tag_nonzero.
+
+(* ---- the protobuf wire form as the generated code writes and reads it (WireMsg: Resource / Metadata / Spec /
+   Timestamp, unknown-field skipping, every decoder quirk transcribed) ---- *)
+From Verif Require Import WireMsg WireMsgProofs WireStack.
+
+(* every metadata value - any strings, finalizer lists, label / annotation maps (keys unique, as in a Go map),
+   timestamps present or absent with any int64 seconds and int32 nanos - reads back as itself *)
+Theorem C18_wire_metadata_roundtrip : forall m, md_wf m -> dec_md (enc_md m) = Some m.
+Proof. exact md_roundtrip. Qed.
+Print Assumptions C18_wire_metadata_roundtrip.
+
+(* ... and so does every resource (metadata and spec each present or absent) *)
+Theorem C18_wire_resource_roundtrip : forall x, wr_wf x -> dec_res (enc_res x) = Some x.
+Proof. exact res_roundtrip. Qed.
+Print Assumptions C18_wire_resource_roundtrip.
+
+(* whatever bytes the decoder accepts, the metadata it builds is well formed: no key twice in a map *)
+Theorem C18_wire_decoder_wellformed : forall b m, dec_md b = Some m -> keys_unique m.
+Proof. exact dec_md_keys_unique. Qed.
+Print Assumptions C18_wire_decoder_wellformed.
+
+(* the whole path of a store record: wire form inside ANY stack of compression / encryption wrappers *)
+Theorem C18_store_record_roundtrip : forall compress decompress comp_id key seal open,
+  (forall b, decompress (compress b) = Some b) ->
+  (forall k n b, length n = 12%nat -> open k n (seal k n b) = Some b) ->
+  (forall (k : key) n b, (length (seal k n b) >= 1)%nat) ->
+  forall ls nonces x, wr_wf x -> nonces_ok key ls nonces ->
+  match unmarshal decompress comp_id key open ls (marshal compress comp_id key seal ls nonces (enc_res x)) with
+  | Some p => dec_res p
+  | None => None
+  end = Some x.
+Proof. exact record_roundtrip. Qed.
+Print Assumptions C18_store_record_roundtrip.
+
+(* the hypotheses are satisfiable: a resource with every kind of field round-trips by evaluation *)
+Theorem C18_wire_example :
+  let t := mkTs 1700000000 123456789 in
+  let m := mkMd [110; 115] [84] [105; 100] [49] [] [114] (Some t) (Some (mkTs (WireMsg.two64 - 5) (two32 - 1))) [[102; 49]; [102; 50]]
+             [([107], [118]); ([], [])] [([97], [98; 99])] [] in
+  let x := mkWr (Some m) (Some (mkSp [1; 2; 3] [121] [])) [] in
+  (md_wf m /\ wr_wf x) /\ dec_res (enc_res x) = Some x /\ dec_md (enc_md m) = Some m.
+Proof. exact (conj wire_wf_example wire_example). Qed.
+Print Assumptions C18_wire_example.
